@@ -47,14 +47,16 @@ def main():
                 total += len(d)
                 if ref is None:
                     ref = d
-                    if len(d) != n:
-                        print(f"{cid} seed={seed}: expected {n} digests, got {len(d)}")
+                    runs = [l for l in d if " dist:" not in l]
+                    if len(runs) != n:
+                        print(f"{cid} seed={seed}: expected {n} run digests, got {len(runs)}")
                         bad += 1
                 elif d != ref:
                     diff = [(x, y) for x, y in zip(ref, d) if x != y][:3]
                     print(f"DIVERGENCE {cid} seed={seed} hashseed={hs} workers={w}: {diff}")
                     bad += 1
-            print(f"{cid} seed={seed}: {n} runs x {len(CONFIGS)} configurations "
+            nd = len([l for l in ref if " dist:" in l])
+            print(f"{cid} seed={seed}: {n} runs + {nd} distribution batches x {len(CONFIGS)} configurations "
                   f"{'identical' if not bad else 'see above'}", flush=True)
     print(f"determinism: {total} run digests compared, {bad} divergence(s)")
     return 1 if bad else 0
